@@ -7,6 +7,7 @@ import (
 	"go/types"
 	"math/big"
 	"strings"
+	"sync/atomic"
 )
 
 type NilV struct{}
@@ -23,6 +24,7 @@ type EvalCtx struct {
 	ex      *Exec
 	depth   int
 	inOld   bool
+	defs    *[]*T // sink for definitional side constraints (fresh floors)
 }
 
 type specPanic struct{ msg string }
@@ -443,26 +445,13 @@ func (c *EvalCtx) binary(n *Node) Val {
 
 func pow2(k int) *big.Int { return new(big.Int).Lsh(big.NewInt(1), uint(k)) }
 
-// truncToInt is Go's float64 -> int64 conversion on amd64: truncation toward
-// zero inside [-2^63, 2^63), 0x8000000000000000 (MinInt64) outside.
-func truncToInt(a *T) *T {
-	a = toReal(a)
-	zero := mkReal(ratInt(0))
-	tr := mkIte(mkCmp(">=", a, zero), floorInt(a), mkArith("-", mkInt(0), floorInt(mkArith("-", zero, a))))
-	lo := mkReal(new(big.Rat).SetInt(new(big.Int).Neg(pow2(63))))
-	hi := mkReal(new(big.Rat).SetInt(pow2(63)))
-	in := mkAnd(mkCmp(">=", a, lo), mkCmp("<", a, hi))
-	return mkIte(in, tr, mkIntBig(new(big.Int).Neg(pow2(63))))
-}
-
-// roundHalfAway is math.Round on the real value.
-func roundHalfAway(a *T) *T {
-	a = toReal(a)
-	zero := mkReal(ratInt(0))
-	half := mkReal(big.NewRat(1, 2))
-	pos := floorInt(mkArith("+", a, half))
-	neg := mkArith("-", mkInt(0), floorInt(mkArith("+", mkArith("-", zero, a), half)))
-	return toReal(mkIte(mkCmp(">=", a, zero), pos, neg))
+// num returns the numeric helper for this context: with a definition sink
+// floors become fresh integers, otherwise plain to_int terms.
+func (c *EvalCtx) num() numCtx {
+	if c.defs == nil {
+		return plainNum
+	}
+	return numCtx{floorFn: func(a *T) *T { return freshIntDef(a, func(d *T) { *c.defs = append(*c.defs, d) }) }}
 }
 
 func (c *EvalCtx) call(n *Node) Val {
@@ -509,17 +498,28 @@ func (c *EvalCtx) call(n *Node) Val {
 	case "real":
 		return toReal(c.evalTerm(n.Kids[0]))
 	case "floor":
-		return floorInt(c.evalTerm(n.Kids[0]))
+		return c.num().floor(c.evalTerm(n.Kids[0]))
 	case "ceil":
-		t := toReal(c.evalTerm(n.Kids[0]))
-		return mkArith("-", mkInt(0), floorInt(mkArith("-", mkReal(ratInt(0)), t)))
+		return c.num().ceil(c.evalTerm(n.Kids[0]))
 	case "trunc64":
-		return truncToInt(c.evalTerm(n.Kids[0]))
+		return c.num().trunc64(c.evalTerm(n.Kids[0]))
 	case "round":
-		return roundHalfAway(c.evalTerm(n.Kids[0]))
+		return c.num().round(c.evalTerm(n.Kids[0]))
+	case "abs":
+		t := c.evalTerm(n.Kids[0])
+		var zero *T = mkInt(0)
+		if t.Sort == SReal {
+			zero = mkReal(ratInt(0))
+		}
+		return mkIte(mkCmp(">=", t, zero), t, mkArith("-", zero, t))
 	case "is_int":
 		t := toReal(c.evalTerm(n.Kids[0]))
-		return mkEq(toReal(floorInt(t)), t)
+		if c.assume && c.defs != nil && !isIntegral(t) {
+			// assumed integrality: t is (the real image of) some fresh integer
+			k := mkVar(fmt.Sprintf("int!%d", atomic.AddInt64(&freshCounter, 1)), SInt)
+			return mkEq(toReal(k), t)
+		}
+		return mkIsInt(t)
 	case "pow2":
 		k, ok := c.evalTerm(n.Kids[0]).intVal()
 		if !ok {
